@@ -81,6 +81,8 @@ class ExprMixin:
     def coerce(self, v, ty, node=None):
         if ty is None or v.ty == ty:
             return v
+        if (v.ty.name, ty.name) in self.coerce_hooks:
+            return self.coerce_hooks[(v.ty.name, ty.name)](self, v)
         if v.ty is T.PY:
             lv = self.lift(v.z, want=ty)
             if lv.ty is T.PY:
@@ -103,8 +105,6 @@ class ExprMixin:
             return V(ty, v.z)   # up/down cast inside one class hierarchy (same sort)
         if hasattr(ty, "dt") and v.ty == ty.dt:
             return V(ty, v.z)     # a dict seen through its items()/values() view
-        if (v.ty.name, ty.name) in self.coerce_hooks:
-            return self.coerce_hooks[(v.ty.name, ty.name)](self, v)
         if isinstance(ty, T.SetT) and isinstance(v.ty, T.ListV) and v.ty.elem == ty.elem:
             return V(ty, v.ty.elems(v.z))     # a collection used only through membership / iteration
         if ty is T.REAL and v.ty is T.INT:
@@ -629,6 +629,10 @@ class ExprMixin:
             return b.ty.is_none(b.z)
         if b.ty is T.NONE and isinstance(a.ty, T.Opt):
             return a.ty.is_none(a.z)
+        if (a.ty.name, b.ty.name) in self.eq_hooks:
+            return self.eq_hooks[(a.ty.name, b.ty.name)](self, a, b)
+        if (b.ty.name, a.ty.name) in self.eq_hooks:
+            return self.eq_hooks[(b.ty.name, a.ty.name)](self, b, a)
         a2, b2 = self.unify(a, b, n)
         if a2 is None:
             # different static types: Python equality is False (e.g. str vs None)
